@@ -24,25 +24,24 @@ import VotelibModel.Core
 namespace VL.StvFile
 open VL
 
-/-- the value of a `key=value` line as `_create_evaluator` looks at it: its text, `value.isdigit()` together with
-    `int(value)` (`digits`; `udigit` = isdigit() holds but int() refuses), and `int(value)` alone (`intv`, used for
-    seats, which accepts signs) -/
+/-- the value of a `key=value` line as `_create_evaluator` looks at it: its text, `int(value)` when
+    `value.isdecimal()` (`digits`; every decimal string is accepted by `int()`), and `int(value)` alone (`intv`, used
+    for seats, which accepts signs) -/
 structure SVal where
   text : String
   digits : Option Nat
-  udigit : Bool
   intv : Option Int
 deriving DecidableEq, Repr, Inhabited
 
-def SVal.word (s : String) : SVal := { text := s, digits := none, udigit := false, intv := none }
-def SVal.num (n : Nat) : SVal := { text := toString n, digits := some n, udigit := false, intv := some n }
+def SVal.word (s : String) : SVal := { text := s, digits := none, intv := none }
+def SVal.num (n : Nat) : SVal := { text := toString n, digits := some n, intv := some n }
 
 /-- header-phase view of a line -/
 inductive HLine where
   | blank                                            -- empty or comment only
   | invalid                                          -- non-empty without '='
   | cand (withdrawn : Bool) (nick name : String)     -- candidate= / withdrawn= with `value.split(None, 1)` of length 2
-  | candBad                                          -- ... of length < 2: ValueError (unpacking)
+  | candBad                                          -- ... of length < 2: refused
   | ballotsN (n : Nat)                               -- ballots=<digits>
   | ballotsBlt                                       -- ballots=blt
   | ballotsBad                                       -- ballots=<anything else>
@@ -53,8 +52,7 @@ deriving DecidableEq, Repr, Inhabited
 /-- first item of a ballot line -/
 inductive First where
   | mult (r : Rat)          -- ends with 'X', the rest parses (digits / n.d / p/q)
-  | multBad                 -- ends with 'X', the rest is refused: STVParseError
-  | multZero                -- ends with 'X', the rest is 'p/0': ZeroDivisionError
+  | multBad                 -- ends with 'X', the rest is refused (ValueError / InvalidOperation / ZeroDivisionError, all caught)
   | word (s : String)       -- anything else
 deriving DecidableEq, Repr, Inhabited
 
@@ -65,8 +63,9 @@ inductive VLine where
   | items (first : First) (rest : List String)
 deriving DecidableEq, Repr, Inhabited
 
-/-- weight handed to the writer: its value and whether `f'{n_votes}X'` is a multiplier `_parse_multiplier` accepts
-    (non-negative int, Fraction, Decimal written with a point — not exponent notation, not negative ints) -/
+/-- weight handed to the writer: its value and whether the multiplier written for it (`f'{n_votes}X'`, a Decimal in
+    plain notation `format(n_votes, 'f')`) is one `_parse_multiplier` accepts (everything but negative ints and
+    non-finite Decimals) -/
 structure Weight where
   val : Rat
   spellable : Bool
@@ -92,15 +91,15 @@ def ordinalNick : Nat → Nat → List Char
 def nLettersFrom (n : Nat) : Nat → Nat → Nat
   | 0, k => k
   | fuel + 1, k => if 26 ^ k ≥ n then k else nLettersFrom n fuel (k + 1)
-def nLetters (n : Nat) : Nat := nLettersFrom n n 0
+def nLetters (n : Nat) : Nat := max 1 (nLettersFrom n n 0)          -- `max(1, ...)`: one candidate still gets a letter
 
 def ordinalNicks (n : Nat) : List String :=
   (List.range n).map (fun i => String.ofList (ordinalNick (nLetters n) i))
 
-/-- the loop of `_candidate_nicks` (L196-203): the first repeated initials send everybody to ordinal nicks -/
+/-- the loop of `_candidate_nicks`: the first empty or repeated initials send everybody to ordinal nicks -/
 def hasDupFrom : List String → List String → Bool
   | [], _ => false
-  | s :: t, seen => if s ∈ seen then true else hasDupFrom t (seen ++ [s])
+  | s :: t, seen => if s = "" ∨ s ∈ seen then true else hasDupFrom t (seen ++ [s])
 
 def candidateNicks (initials : List String) : List String :=
   if hasDupFrom initials [] then ordinalNicks initials.length else initials
@@ -109,15 +108,19 @@ def candidateNicks (initials : List String) : List String :=
 
 def nickAt (nicks : List String) (i : Nat) : String := (nicks[i]?).getD ""
 
+/-- `n_votes != 1 or line in ('', 'end')`: the multiplier is written -/
+def needMult (names : List String) (w : Weight) : Bool :=
+  w.val ≠ 1 || names.isEmpty || names = ["end"]
+
 /-- a written ballot line as the ballot-phase reader classifies it -/
 def voteLine (nicks : List String) (b : List Nat × Weight) : VLine :=
   let names := b.1.map (nickAt nicks)
-  if b.2.val ≠ 1 then
+  if needMult names b.2 then
     VLine.items (if b.2.spellable then First.mult b.2.val else First.multBad) names
   else
     match names with
-    | [] => VLine.blank                      -- the empty string is written
-    | s :: rest => if s = "end" ∧ rest = [] then VLine.endLine else VLine.items (First.word s) rest
+    | [] => VLine.blank                      -- unreachable: an empty ranking gets a multiplier
+    | s :: rest => VLine.items (First.word s) rest
 
 /-- the tie-breaker handed to `TieBreaking` as `_dump_tiebreaker` (L140-151) sees it -/
 inductive Tb where
@@ -129,7 +132,9 @@ deriving DecidableEq, Repr, Inhabited
 
 /-- the system handed to the writer, as `_dump_system` (L88-108) takes it apart -/
 inductive Sys where
-  | voting (name : SVal) (e : Sys)          -- VotingSystem(name, evaluator); `name` is `str(name)` with its classification
+  | voting (name : Option (SVal × Bool)) (e : Sys)
+                                            -- VotingSystem(name, evaluator); name None, or its text and whether the
+                                            -- format can carry it (no '#', line break, edge whitespace: `_header_text`)
   | fixed (n : Nat) (e : Sys)               -- FixedSeatCount(evaluator, n)
   | tie (main : Sys) (tb : Tb)              -- TieBreaking(main, tiebreaker)
   | tv (retainerNone elimLast gregory : Bool) (quotaName : Option String) (mandatory : Bool)
@@ -160,16 +165,23 @@ def dumpTv (retainerNone elimLast gregory : Bool) (quotaName : Option String) (m
 
 /-- `_dump_system` (L88-108) -/
 def dumpSys : Sys → Except Err (List (String × SVal))
-  | .voting name e => do let r ← dumpSys e; pure (("title", name) :: r)
+  | .voting none e => dumpSys e
+  | .voting (some (name, ok)) e => do
+      if !ok then throw notSupported
+      let r ← dumpSys e
+      pure (("title", name) :: r)
   | .fixed n e => do let r ← dumpSys e; pure (("seats", SVal.num n) :: r)
   | .tie m tb => do let r ← dumpSys m; let t ← dumpTb tb; pure (r ++ t)
   | .tv a b c q m => dumpTv a b c q m
   | .other => pure []
 
-/-- `dump_lines` with a system (L72-76) -/
-def dumpStv (sys : Sys) (seatsArg : Option Nat) (d : Doc Weight) : Except Err (List HLine × List VLine) := do
+/-- `dump_lines` with a system (L72-76); `namesOK`: every candidate name is non-empty and can be carried
+    (`_header_text(name, allow_empty=False)`) -/
+def dumpStv (sys : Sys) (seatsArg : Option Nat) (namesOK : Bool) (d : Doc Weight) :
+    Except Err (List HLine × List VLine) := do
   let sl ← dumpSys sys
   let arg := (match seatsArg with | some n => [("seats", SVal.num n)] | none => [])
+  if !namesOK then throw notSupported
   let nicks := candidateNicks (d.cands.map (·.2.2))
   let hdr := (sl ++ arg).map (fun p => HLine.other p.1 p.2)
     ++ (d.cands.zip nicks).map (fun p => HLine.cand p.1.2.1 p.2 p.1.1) ++ [HLine.ballotsN d.ballots.length]
@@ -186,15 +198,28 @@ def nickSet : List (String × Nat) → String → Nat → List (String × Nat)
 
 /-! ### system header -/
 
-/-- a collected header value: a repeated key nests into pairs, `syscomps[key] = (syscomps[key], value)` (L286-287) -/
-inductive HV where
-  | one (v : SVal)
-  | pair (a : HV) (b : SVal)
+/-- the collected system settings `syscomps`: every key at most once, `quota` at most twice (L300-306; the tuple
+    branches of `_create_system` / `_create_evaluator` for other keys are dead code since then) -/
+structure Comps where
+  title : Option SVal := none
+  method : Option SVal := none
+  quota : Option (SVal × Option SVal) := none
+  seats : Option SVal := none
+  random : Option SVal := none
 deriving DecidableEq, Repr, Inhabited
 
-def compsSet : List (String × HV) → String → SVal → List (String × HV)
-  | [], k, v => [(k, .one v)]
-  | (k', h) :: t, k, v => if k' = k then (k', .pair h v) :: t else (k', h) :: compsSet t k v
+/-- L300-308: an unknown key, a repeated key other than quota, a third quota line are refused -/
+def compsAdd (c : Comps) (k : String) (v : SVal) : Except Err Comps :=
+  if k = "title" then (match c.title with | none => pure { c with title := some v } | some _ => throw Err.parseError)
+  else if k = "method" then (match c.method with | none => pure { c with method := some v } | some _ => throw Err.parseError)
+  else if k = "seats" then (match c.seats with | none => pure { c with seats := some v } | some _ => throw Err.parseError)
+  else if k = "random" then (match c.random with | none => pure { c with random := some v } | some _ => throw Err.parseError)
+  else if k = "quota" then
+    (match c.quota with
+     | none => pure { c with quota := some (v, none) }
+     | some (a, none) => pure { c with quota := some (a, some v) }
+     | some (_, some _) => throw Err.parseError)
+  else throw Err.parseError
 
 inductive Quota where
   | name (s : String)          -- votelib.component.quota.get(name)
@@ -214,98 +239,84 @@ deriving DecidableEq, Repr, Inhabited
 def knownQuotas : List String :=
   ["hare", "hare_rounded", "droop", "hagenbach_bischoff", "hagenbach_bischoff_ceil", "hagenbach_bischoff_rounded", "imperiali"]
 
-def sysKeys : List String := ["title", "method", "quota", "seats", "random"]
+/-- `_create_system` L399-403 (a repeated title never gets here) -/
+def sysTitle (c : Comps) : Option String := c.title.map (·.text)
 
-/-- L399-403: a repeated `title=` is refused -/
-def sysTitle (comps : List (String × HV)) : Except Err (Option String) :=
-  match comps.lookup "title" with
-  | none => pure none
-  | some (.one v) => pure (some v.text)
-  | some (.pair _ _) => throw Err.parseError
-
-/-- L415-423: the method; a repeated `method=` is a tuple, which is `!= 'blt'` -/
-def sysMethod (comps : List (String × HV)) : Except Err String :=
-  match comps.lookup "method" with
-  | some (.pair _ _) => throw Err.notImplemented
+/-- L415-423 -/
+def sysMethod (c : Comps) : Except Err String :=
+  match c.method with
   | none => throw Err.parseError                                   -- L420-421 `not method`
-  | some (.one v) =>
+  | some v =>
       if v.text = "" then throw Err.parseError
       else if v.text = "blt" then throw unmodelled
       else if v.text = "BC" ∨ v.text = "GPCA2000" then pure v.text
       else throw Err.notImplemented
 
-/-- L416-417 and L424-431: which quota setting is used, and whether `mandatory` was among them -/
-def sysQuotaSel (method : String) (comps : List (String × HV)) : Except Err (Option HV × Bool) :=
-  let quota0 : Option HV := if method = "GPCA2000" then some (.pair (.one (SVal.word "droop")) (SVal.word "mandatory"))
-                           else comps.lookup "quota"
+/-- L416-417 and L424-433: which quota setting is used, and whether `mandatory` was among them; with two settings
+    one must be `mandatory`, the other (if any: `next(..., None)`) is the quota -/
+def sysQuotaSel (method : String) (c : Comps) : Except Err (Option SVal × Bool) :=
+  let quota0 : Option (SVal × Option SVal) :=
+    if method = "GPCA2000" then some (SVal.word "droop", some (SVal.word "mandatory")) else c.quota
   match quota0 with
-  | some (.pair a b) =>
-      let aM := (match a with | .one v => decide (v.text = "mandatory") | _ => false)
+  | some (a, some b) =>
+      let aM := decide (a.text = "mandatory")
       let bM := decide (b.text = "mandatory")
       if aM || bM then
-        (if !aM then pure (some a, true) else if !bM then pure (some (HV.one b), true)
-         else throw (Err.other "IndexError"))                      -- tuple(...)[0] of nothing
-      else throw Err.parseError                                    -- L431
-  | some (.one v) => pure (some (HV.one v), false)
+        pure (if !aM then some a else if !bM then some b else none, true)
+      else throw Err.parseError
+  | some (a, none) => pure (some a, false)
   | none => pure (none, false)
 
-/-- L432-442 -/
-def sysQuota : Option HV → Except Err Quota
-  | none => throw Err.parseError
-  | some (.pair _ _) => throw (Err.other "AttributeError")         -- tuple.isdigit
-  | some (.one v) =>
-      if v.udigit then throw (Err.other "ValueError")              -- int() of exotic digits
-      else match v.digits with
-        | some n => pure (Quota.const n)
-        | none => if knownQuotas.contains v.text then pure (Quota.name v.text) else throw Err.parseError
+/-- L434-444 -/
+def sysQuota : Option SVal → Except Err Quota
+  | none => throw Err.parseError                                   -- 'quota setting not found'
+  | some v =>
+      match v.digits with
+      | some n => pure (Quota.const n)
+      | none => if knownQuotas.contains v.text then pure (Quota.name v.text) else throw Err.parseError
 
-/-- L451-452, `_add_tiebreaker` L458-473 -/
-def sysRandom (comps : List (String × HV)) : Except Err (Option (Option Nat)) :=
-  match comps.lookup "random" with
-  | some (.pair _ _) => throw (Err.other "AttributeError")
-  | some (.one v) =>              -- (a value classified as digits is neither empty nor 'non': the tests commute)
-      if v.udigit then throw (Err.other "ValueError")
-      else match v.digits with
-        | some n => pure (some (some n))
-        | none => if v.text = "" then pure none
-                  else if v.text = "non" then pure (some none)
-                  else throw Err.parseError
+/-- L453-454, `_add_tiebreaker` (a value classified as decimal is neither empty nor 'non': the tests commute) -/
+def sysRandom (c : Comps) : Except Err (Option (Option Nat)) :=
+  match c.random with
   | none => pure none
+  | some v =>
+      match v.digits with
+      | some n => pure (some (some n))
+      | none => if v.text = "" then pure none
+                else if v.text = "non" then pure (some none)
+                else throw Err.parseError
 
-/-- L453-454, `_add_fixed_seats` L476-485 -/
-def sysSeats (comps : List (String × HV)) : Except Err (Option Int) :=
-  match comps.lookup "seats" with
-  | some (.pair _ _) => throw (Err.other "TypeError")              -- int(tuple)
-  | some (.one v) =>              -- (`int('')` fails, so an empty value has no `intv`)
+/-- L455-456, `_add_fixed_seats` (`int('')` fails, so an empty value has no `intv`) -/
+def sysSeats (c : Comps) : Except Err (Option Int) :=
+  match c.seats with
+  | none => pure none
+  | some v =>
       match v.intv with
       | some z => pure (some z)
       | none => if v.text = "" then pure none else throw Err.parseError
-  | none => pure none
 
-/-- `_create_system(**syscomps)` (L393-406) with `_create_evaluator` (L409-455) -/
-def createSystem (comps : List (String × HV)) : Except Err Summary := do
-  if comps.any (fun c => !sysKeys.contains c.1) then throw (Err.other "TypeError")      -- unexpected keyword argument
-  let title ← sysTitle comps
-  let method ← sysMethod comps
-  let (quota1, mandatory) ← sysQuotaSel method comps
+/-- `_create_system(**syscomps)` with `_create_evaluator` -/
+def createSystem (c : Comps) : Except Err Summary := do
+  let method ← sysMethod c
+  let (quota1, mandatory) ← sysQuotaSel method c
   let quota ← sysQuota quota1
-  let random ← sysRandom comps
-  let seats ← sysSeats comps
-  pure { title := title, seats := seats, quota := quota, mandatory := mandatory, random := random }
+  let random ← sysRandom c
+  let seats ← sysSeats c
+  pure { title := sysTitle c, seats := seats, quota := quota, mandatory := mandatory, random := random }
 
 /-- `_load_system` (L252-290): candidates, nick table, system settings, ballot count -/
-def loadHeader : List HLine → List (String × Bool) → List (String × Nat) → List (String × HV) →
+def loadHeader : List HLine → List (String × Bool) → List (String × Nat) → Comps →
     Except Err (List (String × Bool) × List (String × Nat) × Summary × Nat)
   | [], _, _, _ => throw Err.parseError                                     -- L290: end of file before ballot data
   | .blank :: rest, cs, nk, sc => loadHeader rest cs nk sc
   | .invalid :: _, _, _, _ => throw Err.parseError                          -- L302
   | .cand w nick name :: rest, cs, nk, sc => loadHeader rest (cs ++ [(name, w)]) (nickSet nk nick cs.length) sc
-  | .candBad :: _, _, _, _ => throw (Err.other "ValueError")                -- L278
+  | .candBad :: _, _, _, _ => throw Err.parseError                       -- candidate line without a name
   | .ballotsN n :: _, cs, nk, sc => do let sys ← createSystem sc; pure (cs, nk, sys, n)      -- L271-274
   | .ballotsBlt :: _, _, _, _ => throw unmodelled
   | .ballotsBad :: _, _, _, sc => do let _ ← createSystem sc; throw Err.parseError   -- L272-273: the system is built first
   | .order _ :: _, _, _, _ => throw unmodelled
-  | .other k v :: rest, cs, nk, sc => loadHeader rest cs nk (compsSet sc k v)    -- L286-289
+  | .other k v :: rest, cs, nk, sc => do let sc' ← compsAdd sc k v; loadHeader rest cs nk sc'
 
 /-- `votes[vote] += mult` on a `defaultdict(int)` -/
 def addVote : List (List Nat × Rat) → List Nat → Rat → List (List Nat × Rat)
@@ -331,14 +342,13 @@ def loadVotes (nk : List (String × Nat)) (n : Nat) : List VLine → Nat → Lis
           let b ← lookupNicks nk more
           loadVotes nk n rest (i + 1) (addVote acc b r)
       | .multBad => throw Err.parseError
-      | .multZero => throw (Err.other "ZeroDivisionError")
       | .word s => do
           let b ← lookupNicks nk (s :: more)
           loadVotes nk n rest (i + 1) (addVote acc b 1)
 
 /-- `load_lines` (L225-249) on a text split at its first `ballots=` line, own (unordered) format -/
 def loadStv (hdr : List HLine) (votes : List VLine) : Except Err (Doc Rat × List (String × Bool) × Summary) := do
-  let (cs, nk, sys, n) ← loadHeader hdr [] [] []
+  let (cs, nk, sys, n) ← loadHeader hdr [] [] {}
   let bs ← loadVotes nk n votes 0 []
   pure ({ cands := cs.map (fun c => (c.1, c.2, "")), ballots := bs }, cs, sys)
 
@@ -346,11 +356,8 @@ def loadStv (hdr : List HLine) (votes : List VLine) : Except Err (Doc Rat × Lis
 
 def wfStv (d : Doc Weight) : Bool :=
   let nicks := candidateNicks (d.cands.map (·.2.2))
-  nicks.all (· ≠ "")                       -- (lexing) an empty nickname cannot be read back from `candidate= name`
-  && d.ballots.all (fun b => b.1.all (· < d.cands.length)
-        && (b.2.spellable || b.2.val = 1)
-        && !(b.2.val = 1 && b.1.isEmpty)                                   -- an empty line is skipped by the reader
-        && !(b.2.val = 1 && b.1.map (nickAt nicks) = ["end"]))              -- would be read as the terminator
+  d.ballots.all (fun b => b.1.all (· < d.cands.length)
+        && (b.2.spellable || !needMult (b.1.map (nickAt nicks)) b.2))     -- the multiplier, where one is written, is readable
   && decide (d.ballots.map (·.1)).Nodup
 
 def eraseDoc (d : Doc Weight) : Doc Rat :=
@@ -360,7 +367,7 @@ def eraseDoc (d : Doc Weight) : Doc Rat :=
 /-- the system shapes of the round-trip theorem: `VotingSystem(title, FixedSeatCount(TieBreaking(TransferableVoteSelector(
     quota, Gregory, mandatory), PreConverted(RankedToPresenceCounts, tie-breaker)), n))` with every wrapper optional -/
 structure SysDoc where
-  title : Option SVal
+  title : Option SVal              -- None: no title line is written
   seatsFixed : Option Nat
   seatsArg : Option Nat
   random : Option (Option Nat)
@@ -375,7 +382,7 @@ def SysDoc.toSys (d : SysDoc) : Sys :=
     | some none => Sys.tie tv (.pre true .order)
     | some (some n) => Sys.tie tv (.pre true (.sortitor (some n))))
   let f := (match d.seatsFixed with | some n => Sys.fixed n t | none => t)
-  match d.title with | some v => Sys.voting v f | none => f
+  Sys.voting (d.title.map (fun v => (v, true))) f
 
 /-- a quota the format names, seats given at most once (by the wrapper or by the argument) -/
 def wfSys (d : SysDoc) : Bool :=
